@@ -152,4 +152,138 @@ theorem decodeURLPadded_encode (x : Bytes) : decodeURLPadded (encodeURLPadded x)
   rw [this]
   exact decodeRaw_encode x
 
+/-! ### the URL-safe alphabet, strict decoders (padded and raw) -/
+
+theorem encCharURL_swap : ∀ n : Fin 64, encCharURL n.val = swapURL (encChar n.val) := by decide
+
+theorem decCharURL_encCharURL : ∀ n : Fin 64, decCharURL (encCharURL n.val) = some n.val := by decide
+
+theorem encCharURL_ne_pad : ∀ n : Fin 64, (encCharURL n.val == 61) = false := by decide
+
+/-- the two alphabets differ on the characters for 62 and 63 only, and each decoder rejects the
+other alphabet's two characters and `=` -/
+theorem alphabets_differ : ∀ n : Fin 64,
+    (encCharURL n.val = encChar n.val ∨
+      (n.val = 62 ∧ encChar n.val = 43 ∧ encCharURL n.val = 45) ∨
+      (n.val = 63 ∧ encChar n.val = 47 ∧ encCharURL n.val = 95)) ∧
+    encCharURL n.val ≠ 43 ∧ encCharURL n.val ≠ 47 ∧ encChar n.val ≠ 45 ∧ encChar n.val ≠ 95 := by decide
+
+theorem dec_rejects : decCharURL 43 = none ∧ decCharURL 47 = none ∧ decCharURL 61 = none ∧
+    decChar 45 = none ∧ decChar 95 = none ∧ decChar 61 = none := by decide
+
+theorem encodeURLRaw_eq_map (x : Bytes) : encodeURLRaw x = (encode x).map swapURL := by
+  unfold encodeURLRaw encode
+  rw [List.map_map]
+  apply List.map_congr_left
+  intro s hs
+  exact encCharURL_swap ⟨s, sextets_lt _ (toNat_lt x) s hs⟩
+
+theorem mapM_decURL_enc (sx : List Nat) (h : ∀ s ∈ sx, s < 64) :
+    mapM? decCharURL (sx.map encCharURL) = some sx := by
+  induction sx with
+  | nil => rfl
+  | cons s t ih =>
+    have hs := h s (by simp)
+    have := decCharURL_encCharURL ⟨s, hs⟩
+    simp only at this
+    simp [mapM?, this, ih (fun x hx => h x (by simp [hx]))]
+
+theorem decodeURLRaw_encodeURLRaw (x : Bytes) : decodeURLRaw (encodeURLRaw x) = some x := by
+  unfold decodeURLRaw decodeRawWith encodeURLRaw
+  rw [mapM_decURL_enc _ (sextets_lt _ (toNat_lt x))]
+  simp only [unsextets_sextets _ (toNat_lt x), Option.map_some, List.map_map]
+  congr 1
+  conv => rhs; rw [← List.map_id x]
+  apply List.map_congr_left
+  intro b _
+  simp
+
+theorem encURL_no_pad (x : Bytes) : ∀ c ∈ encodeURLRaw x, (c == 61) = false := by
+  intro c hc
+  simp only [encodeURLRaw, List.mem_map] at hc
+  obtain ⟨s, hs, rfl⟩ := hc
+  exact encCharURL_ne_pad ⟨s, sextets_lt _ (toNat_lt x) s hs⟩
+
+theorem stripPad_padded (e : Bytes) (h : ∀ c ∈ e, (c == 61) = false) : stripPad (e ++ padding e.length) = e := by
+  have hno : ∀ c ∈ e.reverse, (c == 61) = false := by intro c hc; exact h c (by simpa using hc)
+  obtain ⟨h0, h1, h2⟩ := dropPadRev_pad e.reverse hno
+  unfold stripPad padding
+  split
+  · simp [h2]
+  · split
+    · simp [h1]
+    · simp [h0]
+
+theorem stripPad_noPad (e : Bytes) (h : ∀ c ∈ e, (c == 61) = false) : stripPad e = e := by
+  unfold stripPad
+  rw [dropPadRev_id _ (by intro c hc; exact h c (by simpa using hc))]
+  simp
+
+/-- connect-go's reader returns the bytes for the padded encoding (raw_request.go) -/
+theorem binaryQueryRead_encodeURL (x : Bytes) : binaryQueryRead (encodeURL x) = some x := by
+  unfold binaryQueryRead encodeURL decodePaddedWith
+  by_cases hl : ((encodeURLRaw x ++ padding (encodeURLRaw x).length).length % 4 != 0) = true
+  · -- not a multiple of four: nothing was appended
+    have hp : padding (encodeURLRaw x).length = [] := by
+      unfold padding
+      simp only [List.length_append, bne_iff_ne, ne_eq] at hl
+      unfold padding at hl
+      split
+      · rename_i h2; simp only [h2, ↓reduceIte, List.length_cons, List.length_nil] at hl
+        have : (encodeURLRaw x).length % 4 = 2 := by simpa using h2
+        omega
+      · split
+        · rename_i h2 h3; simp only [h2, h3, ↓reduceIte] at hl
+          have : (encodeURLRaw x).length % 4 = 3 := by simpa using h3
+          exfalso; revert hl; simp only [Bool.false_eq_true, ↓reduceIte, List.length_cons, List.length_nil]; omega
+        · rfl
+    simp only [hp, List.append_nil] at hl ⊢
+    simp only [hl, ↓reduceIte]
+    exact decodeURLRaw_encodeURLRaw x
+  · simp only [hl, Bool.false_eq_true, ↓reduceIte]
+    rw [stripPad_padded _ (encURL_no_pad x)]
+    exact decodeURLRaw_encodeURLRaw x
+
+/-- ... and for the unpadded encoding (connect-go's own client) -/
+theorem binaryQueryRead_encodeURLRaw (x : Bytes) : binaryQueryRead (encodeURLRaw x) = some x := by
+  unfold binaryQueryRead decodePaddedWith
+  split
+  · exact decodeURLRaw_encodeURLRaw x
+  · rw [stripPad_noPad _ (encURL_no_pad x)]
+    exact decodeURLRaw_encodeURLRaw x
+
+theorem sextets_length_mod (l : List Nat) : (sextets l).length % 4 ≠ 1 := by
+  fun_induction sextets l with
+  | case1 a b c t ih => simp only [List.length_cons]; omega
+  | case2 a b => simp
+  | case3 a => simp
+  | case4 => simp
+
+theorem encodeURL_length (x : Bytes) : (encodeURL x).length % 4 = 0 := by
+  have h1 := sextets_length_mod (x.map (·.toNat))
+  have hl : (encodeURLRaw x).length = (sextets (x.map (·.toNat))).length := by simp [encodeURLRaw]
+  unfold encodeURL padding
+  rw [List.length_append, hl]
+  split
+  · rename_i h2
+    have : (sextets (x.map (·.toNat))).length % 4 = 2 := by simpa using h2
+    simp only [List.length_cons, List.length_nil]; omega
+  · split
+    · rename_i h3
+      have : (sextets (x.map (·.toNat))).length % 4 = 3 := by simpa using h3
+      simp only [List.length_cons, List.length_nil]; omega
+    · rename_i h2 h3
+      have h2' : ¬ (sextets (x.map (·.toNat))).length % 4 = 2 := by simpa using h2
+      have h3' : ¬ (sextets (x.map (·.toNat))).length % 4 = 3 := by simpa using h3
+      simp only [List.length_nil]; omega
+
+theorem decodePadded_encodeURL (x : Bytes) : decodePaddedWith decCharURL (encodeURL x) = some x := by
+  unfold decodePaddedWith
+  have hl := encodeURL_length x
+  have : ((encodeURL x).length % 4 != 0) = false := by simp [hl]
+  simp only [this, Bool.false_eq_true, ↓reduceIte]
+  unfold encodeURL
+  rw [stripPad_padded _ (encURL_no_pad x)]
+  exact decodeURLRaw_encodeURLRaw x
+
 end ConfModel.Base64
